@@ -111,8 +111,17 @@ def calc_script(ctx, q):
             t = "d" if sb in ("FLOAT", "DOUBLE") else "s"
             L.append("open 0 %d w %x %d 8000" % (sid, f, ch))
             o = len(L) + 1
-            vals = [str(rng.range(-30000, 30000)) for _ in range(64)] if t == "s" else [gens.f64hex(rng.range(-3000, 3000) / 4096.0) for _ in range(64)]
-            L.append("w 0 %s f %d %s" % (t, nfr, " ".join(vals)))
+            # DOUBLE files get values that no float32 holds exactly (a PEAK chunk stores float32: answering CALC from it would be visible)
+            den = 4099.0 if sb == "DOUBLE" else 4096.0
+            vals = [str(rng.range(-30000, 30000)) for _ in range(64)] if t == "s" else [gens.f64hex(rng.range(-3000, 3000) / den) for _ in range(64)]
+            if sb in ("FLOAT", "DOUBLE") and ch != 2:
+                # a stale PEAK: the loudest frames are overwritten with quiet ones before the file is closed (the stored PEAK only ever grows)
+                L.append("w 0 d f 10 3fec000000000000")
+                L.append("w 0 %s f %d %s" % (t, nfr - 10, " ".join(vals)))
+                L.append("seek 0 0 0")
+                L.append("w 0 d f 10 3fd0000000000000")
+            else:
+                L.append("w 0 %s f %d %s" % (t, nfr, " ".join(vals)))
             L.append("close 0")
             raw = mj == "RAW"
             opn = "open %%d %d r 0 0 0" % sid if not raw else "open %%d %d r %x %d 8000" % (sid, f, ch)
